@@ -21,5 +21,5 @@ case "$PROP" in C02|C03|C14|C16) "$GO" build -modfile="$W/go.mod" -tags verif -r
 case "$PROP" in C04|C05) "$GO" build -modfile="$W/go.mod" -tags verif -gcflags=all=-d=checkptr -o "$OUT/vcheck-checkptr" ./cmd/vcheck || exit 3; export VCHECK_CHECKPTR="$OUT/vcheck-checkptr";; esac
 case "$PROP" in C12|C15|C17|C19|C20) "$GO" build -modfile="$W/go.mod" -o "$OUT/bbolt" go.etcd.io/bbolt/cmd/bbolt || exit 3; export VCHECK_BBOLT="$OUT/bbolt";; esac
 cd /verif
-VERIF_DIR="$OUT" BBOLT_VERIFY=all VERIF_SEED="${VERIF_SEED:-0}" timeout 3000 "$OUT/vcheck" "$PROP" "$TIER" 2>&1 | grep -v '^  \[' | cut -c1-400 | head -"${LINES_OUT:-12}"
+VERIF_DIR="$OUT" VERIF_NO_RETRY=1 BBOLT_VERIFY=all VERIF_SEED="${VERIF_SEED:-0}" timeout 2400 "$OUT/vcheck" "$PROP" "$TIER" 2>&1 | grep -v '^  \[' | cut -c1-400 | head -"${LINES_OUT:-12}"
 echo "exit=${PIPESTATUS[0]}"
